@@ -20,6 +20,7 @@ import time
 from vlib.core import VERIF
 from vlib.build import BuildError
 from tools.gen import callgraph as cgm
+from tools.gen import cgstack as csm
 from tools.gen.csrc import ExtractError
 
 SWEEP = os.path.join(VERIF, "harness/C19/sweep.janet")
@@ -61,6 +62,7 @@ CONSUMERS = {
     "disasm": (["tuple"], 256, "asm"), "asm-disasm": (["tuple"], None, "asm"),
     "ffi-struct": (["tuple"], None, "ffi"), "ffi-struct-chain": (["tuple"], None, "ffi"),
     "ffi-write-chain": (["tuple"], None, "ffi"), "ffi-sig-chain": (["tuple"], None, "ffi"),
+    "nest-macro-compile": (["tuple"], 128, "nest"), "nest-peg-cmt": (["tuple"], 512, "nest"), "nest-qq": (["tuple"], 256, "nest"),
     "tail": (["tuple"], None, "tail"), "tail-mutual": (["tuple"], None, "tail"), "tail-apply": (["tuple"], None, "tail"),
     "tail-varargs": (["tuple"], None, "tail"),
 }
@@ -340,6 +342,34 @@ def run(ctx, only=None):
     except ExtractError as e:
         broken.append("translator tools/gen/callgraph.py: %s" % e)
         ctx.broken.append(broken[-1])
+    # (A2) native frame sizes (gcc -fstack-usage, flags of the plain and nohooks variants) -> Gen/DepthStack.lean
+    st = None
+    if g is not None:
+        try:
+            st = csm.extract(ctx.build, g)
+            ctx.gen("DepthStack.lean", csm.render(st, g))
+            tot, parts = csm.budget(st, g)
+            ctx.say("stack budget: %d of %d bytes (%d functions outside cycles %d B, %d inlined, unbounded dynamic frames outside cycles: %s); "
+                    "largest classes: %s" % (tot, csm.STACK_LIMIT, st.transit_n, st.transit, len(st.inlined), st.unbounded,
+                                             ", ".join("%s %d" % kv for kv in sorted(parts.items(), key=lambda kv: -kv[1])[:4])))
+            for kind, fn, ok in st.sites + [("gc->funcdef", "janet_mark_funcdef", st.funcdef_charged)]:
+                if not ok:
+                    broken.append("%s (%s) can start another depth-counter instance without handing on the depth it has used: live guard "
+                                  "frames multiply (L x L instead of 2L) [theorems cg_reentry_shared, cg_stack_budget_ok]" % (fn, kind))
+                    ctx.broken.append(broken[-1])
+                    ctx.say(broken[-1])
+            if not st.acyclic:
+                broken.append("no stack potential exists: a call cycle without a charging guard [theorem cg_pot_ok]")
+                ctx.broken.append(broken[-1])
+            elif tot >= csm.STACK_LIMIT:
+                worst = sorted(parts.items(), key=lambda kv: -kv[1])[0]
+                broken.append("native stack budget %d >= %d bytes; largest class %s = %d [theorem cg_stack_budget_ok]" % (tot, csm.STACK_LIMIT, worst[0], worst[1]))
+                ctx.broken.append(broken[-1])
+                ctx.say(broken[-1])
+        except ExtractError as e:
+            broken.append("translator tools/gen/cgstack.py: %s" % e)
+            ctx.broken.append(broken[-1])
+            ctx.say(broken[-1])
     # (B,C) kernel check -------------------------------------------------------------------------------------
     THEOREMS = lean_theorems()
     if THEOREMS:
@@ -375,6 +405,8 @@ def run(ctx, only=None):
         suspects += ["peg-comb", "peg-match"]
     if g and g.deptharg["cycles"]:
         suspects += ["marshal", "unmarshal", "unmarshal-defs", "unmarshal-abstract"]
+    if st and not st.all_transfer:
+        suspects += ["nest-macro-compile", "nest-peg-cmt", "nest-qq"]
     # a linear recursion that survives depth D under 8 MB survives D/8 under 1 MB, and no C frame is smaller than 32
     # bytes (2^18 * 32 B = 8 MB): quick tier drives the first kind of every consumer (and every suspect named by the
     # static part) to 10^6 and the other kinds to 2^18; thorough drives everything to 10^6.
@@ -493,6 +525,12 @@ def run(ctx, only=None):
         "peg_depth_balance_oracle": drift,
         "exemptions": None if not g else {"bounded_by_argument": g.bounded, "indirect_edges": sorted(set(w for _, _, w in g.exempted)),
                                           "failed_revalidation": g.exemption_failures},
+        "stack_budget": None if not st else {"total_bytes": csm.budget(st, g)[0], "limit_bytes": csm.STACK_LIMIT, "per_class": csm.budget(st, g)[1],
+                                             "classes": [{k: c[k] for k in ("name", "limit", "unit", "how", "fns")} for c in st.classes],
+                                             "transit_bytes": st.transit, "functions_outside_cycles": st.transit_n, "libc_allowance": csm.LIBC_ALLOWANCE,
+                                             "max_head": st.max_head, "inlined_everywhere": len(st.inlined), "dynamic_unbounded": st.unbounded,
+                                             "reentry_sites": st.sites + [("gc->funcdef", "janet_mark_funcdef", st.funcdef_charged)],
+                                             "variants": list(csm.SU_VARIANTS), "unrolled": st.unrolled, "pure_checkers": st.demoted},
         "counter_balance": None if not g else {"path_classes": len(g.balance), "unbalanced": g.unbalanced,
                                                "functions": sorted(set(pth[1] for pth in g.balance))},
         "depth_argument_charging": None if not g else {"functions": g.deptharg["fns"], "non_charging_edges": g.deptharg["zero"],
@@ -506,7 +544,7 @@ def run(ctx, only=None):
         "LLVM IR at -O0 is a faithful account of the C call structure; indirect calls over-approximated by same-type address-taken functions",
         "edges into the non-returning janet_panic*/janet_signalv family are cut; exemption list in tools/gen/callgraph.py",
         "guard marks come from source idioms (that the guard is decremented/checked on the recursive path is tested by the sweep, not proved)",
-        "native stack bytes per frame x limit < available stack is a runtime fact: verdict at the default 8 MB stack, 1 MB informational",
+        "native stack budget: frame sizes are gcc -fstack-usage figures for the plain (-O1) and nohooks (-O2) flags; functions outside call cycles occur at most once per chain (translator's SCC analysis); libc internals covered by a 64 KiB allowance; per-class counts of live guard frames are hypotheses of stack_bytes_bounded (pool classes: Nest model; marsh / funcdef-nesting: one live counter instance assumed); verdict of the sweep at the default 8 MB stack, 1 MB informational",
         "janet-level recursion is bounded by the fiber's maxstack (default 2^31-1 slots = 16 GiB of heap): cyclic inputs to freeze/thaw/deep= are run in a fiber limited to 2^22 slots",
     ])
 
